@@ -75,7 +75,7 @@ func c14Gen(seed uint64, run int, tier string) *Case {
 				if r.Pct(12) {
 					// a further open of the same file (now and then by way of a symbolic link): what one handle
 					// writes, the others must read
-					ops = append(ops, Op{K: "reopen", A: []int64{int64(f), int64(r.Pick(0, 1, 2, 2)), int64(r.Pick(0, 2, 2, 1|16, 2|16))}}) // OREAD, ORDWR, or with OTRUNC: the file is emptied by the open
+					ops = append(ops, Op{K: "reopen", A: []int64{int64(f), int64(r.Pick(0, 1, 2, 2)), int64(r.Pick(0, 2, 2, 1|16, 2|16, 3))}}) // OREAD, ORDWR, or with OTRUNC: the file is emptied by the open; OEXEC: read, with the permission check of exec
 				}
 				if r.Pct(6) {
 					ops = append(ops, Op{K: "closeh", A: []int64{int64(f), int64(r.Intn(8))}}) // one of the further handles is closed; the others go on
@@ -251,7 +251,7 @@ func c14Caller(x *Ctx, u *UfsSys, clnt *go9p.Clnt, ci int, ops []Op) {
 			f.c14Handle = f.hs[int(op.a(3))%len(f.hs)]
 		}
 		isWrite := op.K == "cwrite" || op.K == "fwrite" || op.K == "writeat" || op.K == "written"
-		if (f.fid.Mode&3 == go9p.OREAD && isWrite) || (f.fid.Mode&3 == go9p.OWRITE && !isWrite) {
+		if ((f.fid.Mode&3 == go9p.OREAD || f.fid.Mode&3 == go9p.OEXEC) && isWrite) || (f.fid.Mode&3 == go9p.OWRITE && !isWrite) {
 			f.c14Handle = f.hs[0] // the first handle is open for reading and writing
 		}
 		osMark = len(x.S.OSLog)
